@@ -99,18 +99,42 @@ type OvCase struct {
 	Ovf bool `json:"ovf"`
 }
 
+func zerosLit(n int) string {
+	return "[" + strings.TrimSuffix(strings.Repeat("0, ", n), ", ") + "]"
+}
+
 func (r *replayer) ovCase(c OvCase) {
-	src := strings.Replace(c.Src, ovSmallLit, ovBigLit, -1)
-	if src == c.Src {
+	if !strings.Contains(c.Src, ovSmallLit) {
 		r.sum.Infra = append(r.sum.Infra, "oversize case without the long literal: "+c.Src)
 		return
 	}
+	r.ovRun(c, strings.Replace(c.Src, ovSmallLit, ovBigLit, -1), "inflated")
+	// the boundary: literals whose code ends within a few bytes of the 16-bit limit, so that of two jumps
+	// over the same code (a loop's forward exit and its longer backward jump) only one is out of range
+	if strings.Contains(c.Src, ", {") && strings.Count(c.Src, ovSmallLit) == 1 {
+		r.ocSeen++
+		stride := 1
+		fmt.Sscan(r.opts["-ovstride"], &stride)
+		if stride <= 1 || r.ocSeen%stride == 1 {
+			for n := 21825; n <= 21852; n++ {
+				r.ovRun(c, strings.Replace(c.Src, ovSmallLit, zerosLit(n), -1), fmt.Sprintf("literal of %d elements", n))
+			}
+		}
+	}
+	if c.Ovf {
+		r.sum.Nontrivial++
+	}
+	c.Runs = nil
+	r.sample(c)
+}
+
+func (r *replayer) ovRun(c OvCase, src, tag string) {
 	lg := &Log{}
 	for _, m := range r.modes {
 		prog, cg := CompileMode(src, m)
 		if cg != nil {
 			if cg.Panic != "" || cg.Hang {
-				r.fail(Failure{Why: "compile-panic", Src: c.Src, Mode: m.String(), Got: cg, Tags: []string{"inflated"}})
+				r.fail(Failure{Why: "compile-panic", Src: c.Src, Mode: m.String(), Got: cg, Tags: []string{tag}})
 				continue
 			}
 			// C05 speaks about the programs Compile produces: a rejection is never its violation
@@ -140,15 +164,10 @@ func (r *replayer) ovCase(c OvCase) {
 					g.Err = g.Err[:300]
 				}
 				r.fail(Failure{Why: "oversize-" + why, Src: c.Src, Mode: m.String(), Env: rc.Env,
-					Exp: &exp, Got: &g, Tags: []string{"inflated"}})
+					Exp: &exp, Got: &g, Tags: []string{tag}})
 			}
 		}
 	}
-	if c.Ovf {
-		r.sum.Nontrivial++
-	}
-	c.Runs = nil
-	r.sample(c)
 }
 
 // budgetCase: C06.  Only the budget verdicts are compared: a run the reference
